@@ -104,6 +104,11 @@ def replay_history(item):
         for n, (d, lg) in enumerate(zip(c['hist'], c['log']), start=1):
             rows = [dict(k=r['k'], **cells(r['v'])) for r in d['rows']]
             fields = [('k', 'integer'), ('v', 'string'), ('arr', 'array'), ('obj', 'object')]
+            nested = variant.get('nested', True)
+            if not nested:          # a resource WITHOUT array/object columns (the dumper has nothing to convert itself; the writer may)
+                fields = fields[:2]
+                for r in rows:
+                    del r['arr'], r['obj']
             if variant.get('dur'):
                 fields.append(('dur', 'duration'))
             else:
@@ -132,8 +137,8 @@ def replay_history(item):
                 if len(streams) != 2 or streams[1] != other:
                     return dict(ok=False, why='a resource that is not dumped does not pass through unchanged', got=streams[1:] )
             with engine.connect() as con:
-                tbl = [tuple(r) for r in con.execute(text('select k, v, arr, obj from tbl order by rowid'))]
-            want_tbl = [(r['k'], cells(r['v'])['v'], jsonable(cells(r['v'])['arr']), jsonable(cells(r['v'])['obj'])) for r in lg['table']]
+                tbl = [tuple(r) for r in con.execute(text('select k, v, arr, obj from tbl order by rowid' if nested else 'select k, v, null, null from tbl order by rowid'))]
+            want_tbl = [(r['k'], cells(r['v'])['v'], jsonable(cells(r['v'])['arr']) if nested else None, jsonable(cells(r['v'])['obj']) if nested else None) for r in lg['table']]
             got_tbl = [(k, v, json.loads(a) if a is not None else None, json.loads(o) if o is not None else None) for k, v, a, o in tbl]
             if variant['pk']:        # an INTEGER PRIMARY KEY is the rowid: insertion order is not observable
                 got_tbl, want_tbl = sorted(got_tbl, key=canon), sorted(want_tbl, key=canon)
@@ -148,7 +153,7 @@ def replay_history(item):
             for r, o in zip(down, rows):
                 if variant.get('dur') and (r.get('dur') != o['dur'] or type(r.get('dur')) is not type(o['dur'])):
                     return dict(ok=False, why='duration cell downstream of dump %d differs' % n, got=repr(r.get('dur')), want=repr(o['dur']))
-                for col in ('arr', 'obj'):
+                for col in (('arr', 'obj') if nested else ()):
                     if r.get(col) != o[col]:
                         if isinstance(r.get(col), str) and same_json(json.loads(r[col]), jsonable(o[col])):
                             kf += 1
@@ -175,7 +180,7 @@ def run():
     items = []
     for c in cases:
         allupd = all(d['mode'] == 'update' for d in c['hist'])
-        items.append(dict(case=c, variant=dict(pk=bool(allupd and r.random() < 0.5), dur=r.random() < 0.3)))
+        items.append(dict(case=c, variant=dict(pk=bool(allupd and r.random() < 0.5), dur=r.random() < 0.3, nested=r.random() < 0.75)))
     res = pmap(replay_history, items, chunksize=16)
     errs = harness_errors(res)
     if errs:
